@@ -1,0 +1,200 @@
+//go:build verif
+
+// Contracts for the memguard-backed secrets, read by /verif/gocv (comment-only; no code).
+// The package shares its name with the library it wraps (github.com/awnumar/memguard): the verifier knows this
+// package as mgsecret, so that `memguard.` below names the library.
+package memguard
+
+//@ pkgalias mgsecret
+
+// ---- assumed contracts of the library (github.com/awnumar/memguard v0.22.5), over the ghost page machine of
+// internal/memcall: lbpage(b.Buffer) is the page region of a LockedBuffer (the backing array of Inner() and Bytes()),
+// lbalive(b) its liveness flag. A library failure to allocate, lock or protect memory panics (core.Panic) rather than
+// returning: those outcomes are not modelled. ----
+//@ ghost field lbalive(ref) bool
+//@ ghost field lbpage(ref) ref
+
+// NewBufferFromBytes: copies src into a fresh locked page, wipes src, freezes the page (read-only).
+// An empty source yields a buffer that is not alive.
+//@ extern memguard.NewBufferFromBytes
+//@   names src
+//@   modifies src[*], lbalive(result), mapped(lbpage(result.Buffer)), locked(lbpage(result.Buffer)), prot(lbpage(result.Buffer))
+//@   ensures result != nil && fresh(result)
+//@   ensures forall i int :: 0 <= i && i < len(src) ==> src[i] == 0
+//@   ensures lbalive(result) == (len(src) >= 1)
+//@   ensures lbalive(result) ==> fresh(lbpage(result.Buffer)) && mapped(lbpage(result.Buffer)) && locked(lbpage(result.Buffer)) && prot(lbpage(result.Buffer)) == 1
+//@   ensures !lbalive(result) ==> mapped(lbpage(result.Buffer)) == old(mapped(lbpage(result.Buffer))) && locked(lbpage(result.Buffer)) == old(locked(lbpage(result.Buffer)))
+
+// NewBufferRandom: a fresh locked page filled from the system's random source, frozen (read-only).
+//@ extern memguard.NewBufferRandom
+//@   names size
+//@   modifies lbalive(result), mapped(lbpage(result.Buffer)), locked(lbpage(result.Buffer)), prot(lbpage(result.Buffer))
+//@   ensures result != nil && fresh(result)
+//@   ensures lbalive(result) == (size >= 1)
+//@   ensures lbalive(result) ==> fresh(lbpage(result.Buffer)) && mapped(lbpage(result.Buffer)) && locked(lbpage(result.Buffer)) && prot(lbpage(result.Buffer)) == 1
+//@   ensures !lbalive(result) ==> mapped(lbpage(result.Buffer)) == old(mapped(lbpage(result.Buffer))) && locked(lbpage(result.Buffer)) == old(locked(lbpage(result.Buffer)))
+
+//@ extern memguard.(*LockedBuffer).IsAlive
+//@   names b
+//@   pure
+//@   requires b != nil
+//@   ensures result == lbalive(b)
+
+// Bytes / Inner: views of the buffer's page (nil once destroyed). Inner() really is the whole inner page region and
+// Bytes() its tail that holds the data; the rest is the library's canary, which never holds secret bytes: the model
+// identifies the two ranges (lblen bytes at offset 0 of the page).
+//@ ghost field lblen(ref) int
+//@ extern memguard.(*LockedBuffer).Bytes
+//@   names b
+//@   pure
+//@   requires b != nil
+//@   ensures lbalive(b) ==> result != nil && arr(result) == lbpage(b.Buffer) && off(result) == 0 && len(result) == lblen(b.Buffer) && len(result) >= 1
+//@   ensures !lbalive(b) ==> result == nil
+//@ extern core.(*Buffer).Inner
+//@   names b
+//@   pure
+//@   ensures arr(result) == lbpage(b) && off(result) == 0 && len(result) == lblen(b) && len(result) >= 0
+
+// Melt makes the page writable, Wipe zeroes the data (both panic on failure, not modelled)
+//@ extern memguard.(*LockedBuffer).Melt
+//@   names b
+//@   requires b != nil
+//@   modifies prot(lbpage(b.Buffer))
+//@   ensures lbalive(b) ==> prot(lbpage(b.Buffer)) == 2
+//@   ensures !lbalive(b) ==> prot(lbpage(b.Buffer)) == old(prot(lbpage(b.Buffer)))
+//@ extern memguard.(*LockedBuffer).Wipe
+//@   names b
+//@   requires b != nil
+//@   requires [C12:wipe-needs-writable-pages] lbalive(b) ==> prot(lbpage(b.Buffer)) == 2
+//@   modifies bytesof(lbpage(b.Buffer), 0, lblen(b.Buffer))[*]
+//@   ensures allzero(bytesof(lbpage(b.Buffer), 0, lblen(b.Buffer)))
+
+// Destroy: makes the pages writable, wipes them, unlocks and unmaps them; idempotent
+//@ extern memguard.(*LockedBuffer).Destroy
+//@   names b
+//@   requires b != nil
+//@   modifies lbalive(b), mapped(lbpage(b.Buffer)), locked(lbpage(b.Buffer)), prot(lbpage(b.Buffer))
+//@   ensures !lbalive(b) && !mapped(lbpage(b.Buffer)) && !locked(lbpage(b.Buffer))
+
+//@ axiom [metrics-initialised-mg] securememory.InUseCounter != nil && securememory.AllocCounter != nil && AllocTimer != nil && securememory.InUseCounter != securememory.AllocCounter && memcall.Default != nil
+
+// what a reader callback may rely on while it runs
+//@ funcspec mgAction
+//@   names b
+//@   requires [C11:bytes-readable-only-while-a-reader-runs] b != nil && mapped(arr(b)) && locked(arr(b)) && prot(arr(b)) == 1
+
+// ---- object invariant of a secret, under its lock. What other threads may have done to the buffer between two
+// critical sections (flip its protection, destroy it) is forgotten at every acquisition. ----
+//@ monitor (*secret).rw
+//@   facet C11
+//@   cond c
+//@   guards closing, accessCounter
+//@   monotone closing
+//@   havocs lbalive(this.buffer), mapped(lbpage(this.buffer.Buffer)), locked(lbpage(this.buffer.Buffer)), prot(lbpage(this.buffer.Buffer))
+//@   invariant [open-secret-is-mapped-and-locked] lbalive(this.buffer) ==> mapped(lbpage(this.buffer.Buffer)) && locked(lbpage(this.buffer.Buffer)) && this.accessCounter >= 0
+//@   invariant [readable-while-readers] lbalive(this.buffer) && this.accessCounter > 0 ==> prot(lbpage(this.buffer.Buffer)) == 1
+//@   invariant [destroyed-secret-has-no-memory] !lbalive(this.buffer) ==> this.closing && !mapped(lbpage(this.buffer.Buffer)) && !locked(lbpage(this.buffer.Buffer))
+//@   invariant [wired] this.rw != nil && this.c != nil && this.mc != nil && this.buffer != nil
+//@ immutable (secret).rw, (secret).c, (secret).mc, (secret).buffer
+
+//@ spec fn wfM(s *secret) bool = s != nil && s.rw != nil && s.c != nil && s.mc != nil && s.buffer != nil && valid(s.rw)
+
+//@ func (*SecretFactory).newFromBuffer
+//@   names f, lb
+//@   facet C11, C12
+//@   safety C12
+//@   opt no-frame
+//@   requires f != nil && lb != nil
+//@   requires lbalive(lb) ==> mapped(lbpage(lb.Buffer)) && locked(lbpage(lb.Buffer)) && prot(lbpage(lb.Buffer)) == 1
+//@   ensures [C12:secret-iff-no-error] (err == nil) == (result != nil)
+//@   ensures [C11:idle-secret-is-inaccessible] err == nil ==> fresh(result) && wfM(result) && result.buffer == lb && lbalive(lb) && mapped(lbpage(lb.Buffer)) && locked(lbpage(lb.Buffer)) && prot(lbpage(lb.Buffer)) == 0 && !result.closing && result.accessCounter == 0 && *result.rw == 0
+//@   ensures [C12:failed-creation-leaves-nothing-mapped-or-locked] err != nil && relfail == old(relfail) && old(lbalive(lb)) ==> !mapped(lbpage(lb.Buffer)) && !locked(lbpage(lb.Buffer))
+//@   ensures [C12:in-use-counted-only-on-success] cnt(securememory.InUseCounter) == old(cnt(securememory.InUseCounter)) + (if err == nil then 1 else 0)
+
+// On failure New and CreateRandom hand back a nil *secret inside a non-nil interface value (Go's typed nil): the
+// error is what tells the caller, so the contract speaks about the pointer, not the interface value.
+//@ func (*SecretFactory).New
+//@   names f, b
+//@   facet C10, C11, C12
+//@   safety C12
+//@   opt no-frame
+//@   requires f != nil
+//@   ensures [C10:source-wiped] forall i int :: 0 <= i && i < len(b) ==> b[i] == 0
+//@   ensures [C12:secret-iff-no-error] istype(result, *secret) && (err == nil) == (dyn(result, *secret) != nil)
+//@   ensures [C11:idle-secret-is-inaccessible] err == nil ==> istype(result, *secret) && dyn(result, *secret).buffer != nil && lbalive(dyn(result, *secret).buffer) && mapped(lbpage(dyn(result, *secret).buffer.Buffer)) && locked(lbpage(dyn(result, *secret).buffer.Buffer)) && prot(lbpage(dyn(result, *secret).buffer.Buffer)) == 0
+//@   ensures [C12:in-use-counted-only-on-success] cnt(securememory.InUseCounter) == old(cnt(securememory.InUseCounter)) + (if err == nil then 1 else 0)
+
+//@ func (*SecretFactory).CreateRandom
+//@   names f, size
+//@   facet C11, C12
+//@   safety C12
+//@   opt no-frame
+//@   requires f != nil
+//@   ensures [C12:secret-iff-no-error] istype(result, *secret) && (err == nil) == (dyn(result, *secret) != nil)
+//@   ensures [C11:idle-secret-is-inaccessible] err == nil ==> istype(result, *secret) && dyn(result, *secret).buffer != nil && lbalive(dyn(result, *secret).buffer) && mapped(lbpage(dyn(result, *secret).buffer.Buffer)) && locked(lbpage(dyn(result, *secret).buffer.Buffer)) && prot(lbpage(dyn(result, *secret).buffer.Buffer)) == 0
+//@   ensures [C12:in-use-counted-only-on-success] cnt(securememory.InUseCounter) == old(cnt(securememory.InUseCounter)) + (if err == nil then 1 else 0)
+
+//@ func (*secret).access
+//@   names s
+//@   facet C11, C12
+//@   safety C12
+//@   opt no-frame
+//@   opt old-at-acquire
+//@   requires wfM(s) && *s.rw == 0
+//@   ensures [C11:lock-released] *s.rw == 0
+//@   ensures [C11:closed-secret-refuses-access] old(s.closing || !lbalive(s.buffer)) ==> err != nil
+//@   ensures [C12:failed-access-changes-nothing] err != nil ==> s.accessCounter == old(s.accessCounter) && prot(lbpage(s.buffer.Buffer)) == old(prot(lbpage(s.buffer.Buffer))) && lbalive(s.buffer) == old(lbalive(s.buffer)) && s.closing == old(s.closing)
+//@   ensures [C11:reader-sees-read-only-memory] err == nil ==> s.accessCounter == old(s.accessCounter) + 1 && prot(lbpage(s.buffer.Buffer)) == 1 && lbalive(s.buffer) && mapped(lbpage(s.buffer.Buffer)) && locked(lbpage(s.buffer.Buffer))
+
+//@ func (*secret).release
+//@   names s
+//@   facet C11, C12
+//@   safety C12
+//@   opt no-frame
+//@   opt old-at-acquire
+//@   requires wfM(s) && *s.rw == 0
+//@   ensures [C11:lock-released] *s.rw == 0
+//@   ensures [C11:reader-count-goes-down] s.accessCounter == old(s.accessCounter) - 1
+//@   ensures [C11:last-reader-restores-no-access] err == nil && s.accessCounter == 0 && old(lbalive(s.buffer)) ==> prot(lbpage(s.buffer.Buffer)) == 0
+
+//@ func (*secret).Close
+//@   names s
+//@   facet C11, C12
+//@   safety C12
+//@   opt no-frame
+//@   opt old-at-acquire
+//@   requires wfM(s) && *s.rw == 0
+//@   loop 1 invariant [C11:closing-under-lock] *s.rw == 2 && s.closing && (lbalive(s.buffer) ==> mapped(lbpage(s.buffer.Buffer)) && locked(lbpage(s.buffer.Buffer)) && s.accessCounter >= 0) && (lbalive(s.buffer) && s.accessCounter > 0 ==> prot(lbpage(s.buffer.Buffer)) == 1) && (!lbalive(s.buffer) ==> !mapped(lbpage(s.buffer.Buffer)) && !locked(lbpage(s.buffer.Buffer))) && cnt(securememory.InUseCounter) == old(cnt(securememory.InUseCounter))
+//@   ensures [C11:lock-released] *s.rw == 0
+//@   ensures [C11,C12:close-wipes-unlocks-and-unmaps] result == nil && !lbalive(s.buffer) && !mapped(lbpage(s.buffer.Buffer)) && !locked(lbpage(s.buffer.Buffer))
+//@   ensures [C11:later-access-refused] s.closing
+//@   ensures [C12:in-use-released-only-when-destroyed] cnt(securememory.InUseCounter) == old(cnt(securememory.InUseCounter)) - (if called(Destroy, 1) then 1 else 0)
+
+//@ func (*secret).IsClosed
+//@   names s
+//@   facet C11
+//@   opt no-frame
+//@   requires wfM(s) && *s.rw == 0
+//@   ensures [C11:lock-released] *s.rw == 0
+
+//@ func (*secret).WithBytesFunc
+//@   names s, action
+//@   facet C11, C12
+//@   safety C12
+//@   opt no-frame
+//@   param action mgAction
+//@   requires wfM(s) && *s.rw == 0 && action != nil
+//@   ensures [C11,C12:a-reader-releases-only-what-it-acquired] retis(release, 1, 0, ret(release, 1, 0)) ==> retis(access, 1, 0, nil)
+//@   ensures [C11:callback-runs-only-between-access-and-release] retis(action, 1, 0, ret(action, 1, 0)) ==> retis(access, 1, 0, nil) && retis(release, 1, 0, ret(release, 1, 0))
+//@   ensures [C11:lock-released] *s.rw == 0
+
+//@ func (*secret).WithBytes
+//@   names s, action
+//@   facet C11, C12
+//@   safety C12
+//@   opt no-frame
+//@   param action mgAction
+//@   requires wfM(s) && *s.rw == 0 && action != nil
+//@   ensures [C11,C12:a-reader-releases-only-what-it-acquired] retis(release, 1, 0, ret(release, 1, 0)) ==> retis(access, 1, 0, nil)
+//@   ensures [C11:callback-runs-only-between-access-and-release] retis(action, 1, 0, ret(action, 1, 0)) ==> retis(access, 1, 0, nil) && retis(release, 1, 0, ret(release, 1, 0))
+//@   ensures [C11:lock-released] *s.rw == 0
